@@ -230,3 +230,50 @@ func ZZ_C17_Receive() {
 		zzrt.Cover("stored")
 	}
 }
+
+// ZZ_C17_RouteQueues: the same routing step with the REAL per-peer event queues, which
+// stand at arbitrary (symbolic) positions of their streams: whatever is routed to a peer
+// is appended to that peer's stream under that stream's own next sequence number (the
+// receiver de-duplicates by it) — also when one message goes to several peers at once.
+func ZZ_C17_RouteQueues() {
+	f := zzNewFed("n0")
+	local := submem.NewStore()
+	f.localSubStore.init(local)
+	names := []string{"n1", "n2"}
+	qs := map[string]*eventQueue{}
+	pos := map[string]uint64{}
+	for _, n := range names {
+		q := newEventQueue()
+		p := zzrt.Uint64()
+		zzrt.Assume(p < 1<<62)
+		q.nextID = p
+		pos[n] = p
+		qs[n] = q
+		f.peers[n] = &peer{fed: f, localName: "n0", queue: q}
+	}
+	zzrt.Observe("p1", pos["n1"])
+	zzrt.Observe("p2", pos["n2"])
+	retained := zzrt.ConcreteBool(zzrt.Bool())
+	if !retained {
+		// a plain subscriber behind each peer
+		f.fedSubStore.Subscribe("n1", &gmqtt.Subscription{TopicFilter: "a"})
+		f.fedSubStore.Subscribe("n2", &gmqtt.Subscription{TopicFilter: "a"})
+	}
+	f.sendMessage(&gmqtt.Message{Topic: "a", Retained: retained, Payload: []byte{1}})
+	// a second message that only n1 needs
+	f.fedSubStore.Subscribe("n1", &gmqtt.Subscription{TopicFilter: "b"})
+	f.sendMessage(&gmqtt.Message{Topic: "b", Payload: []byte{2}})
+	want := map[string][]byte{"n1": {1, 2}, "n2": {1}}
+	for _, n := range names {
+		evs := qs[n].fetchEvents()
+		zzrt.Assert(len(evs) == len(want[n]), "each-peer-stream-holds-what-was-routed-to-it")
+		for i, e := range evs {
+			if i >= len(want[n]) {
+				break
+			}
+			zzrt.Assert(e.GetMessage() != nil && len(e.GetMessage().Payload) == 1 && e.GetMessage().Payload[0] == want[n][i], "stream-order-is-routing-order")
+			zzrt.Assert(e.Id == pos[n]+uint64(i), "event-carries-the-next-sequence-number-of-its-own-stream")
+		}
+	}
+	zzrt.Cover("queues")
+}
